@@ -254,6 +254,12 @@ func (g *progGen) expr(t ty, depth int, sc *scope) MalType {
 // viaApply: a call `(f a…)`, or (1 in 4) the same call routed through the `apply` builtin — `(apply f [a…])` /
 // `(apply f a1 (list a2…))` — i.e. through function application outside the evaluation loop
 func (g *progGen) viaApply(f MalType, args []MalType) MalType {
+	if g.trace && g.r.chance(1, 6) {
+		// the operator is an expression with an effect of its own: it is evaluated FIRST, then the operands
+		f = []MalType{ls(sy("do"), call1("trace!", 100+g.r.intn(9)), f), ls(sy("if"), call1("trace!", true), f, f),
+			call1("first", call1("list", f, call1("trace!", 100+g.r.intn(9))))}[g.r.intn(3)]
+		return List{Val: append([]MalType{f}, args...)}
+	}
 	if !g.r.chance(1, 4) {
 		return List{Val: append([]MalType{f}, args...)}
 	}
@@ -331,7 +337,7 @@ func (g *progGen) quoted(t ty) MalType {
 
 // faulty: the kinds of error the language definition prescribes
 func (g *progGen) faulty(depth int, sc *scope) MalType {
-	switch g.r.intn(6) {
+	switch g.r.intn(8) {
 	case 0:
 		return sy("undefined-var")
 	case 1:
@@ -342,6 +348,8 @@ func (g *progGen) faulty(depth int, sc *scope) MalType {
 		return ls(ls(sy("fn"), vc(sy("a")), sy("a")), 1, 2) // too many arguments
 	case 4:
 		return call1("+", 1, "s") // builtin domain error
+	case 6:
+		return ls(sy("undefined-fn"), call1("trace!", g.intLit()), ls(sy("def"), sy("touched"), 1)) // unbound operator: no operand is evaluated
 	default:
 		return call1("let", vc(sy("a")), 1) // odd bindings
 	}
